@@ -175,8 +175,13 @@ func c14Case(env *Env, tape *sim.Tape) *CaseOut {
 	if kw >= 0 {
 		op.W.FailAt, op.W.FailErr, op.W.Short = kw, sim.ErrInjectedWrite, fk == fkWriteShort
 	}
+	readErr := sim.ErrInjectedRead
 	if kr >= 0 {
-		op.R.FailAt, op.R.FailErr, op.R.FailWithData = kr, sim.ErrInjectedRead, fk == fkReadData
+		if krRaw/3%4 == 3 {
+			readErr = sim.ErrInjectedReadEOF
+			out.stat("probe_reader_error_wrapping_eof", 1)
+		}
+		op.R.FailAt, op.R.FailErr, op.R.FailWithData = kr, readErr, fk == fkReadData
 	}
 	switch entry {
 	case EWriter, ERespWriter, EMiddleErr:
@@ -302,7 +307,7 @@ func c14Case(env *Env, tape *sim.Tape) *CaseOut {
 		if op.W.Fired && op.sawErr(sim.ErrInjectedWrite) {
 			ok = true
 		}
-		if op.R.Fired && op.sawErr(sim.ErrInjectedRead) {
+		if op.R.Fired && op.sawErr(readErr) {
 			ok = true
 		}
 		if !ok {
